@@ -125,6 +125,9 @@ type TunPlan struct {
 	// its last packet: 1 = the terminating chunk travels in the same write as the last piece
 	// of the packet stream, 2 = in a write of its own
 	EndBody int
+	// QuietBefore[i]: the client is quiet for that long (simulated time passes on the open
+	// tunnel) before it sends transport message i (segment i with Segs, else packet i)
+	QuietBefore map[int]time.Duration
 }
 
 type Tun struct {
@@ -141,6 +144,7 @@ type Tun struct {
 	// Dup is the client that made the second IN request (TunPlan.DupIn)
 	Dup      *env.TunClient
 	dupStage int
+	quiet    map[int]bool
 }
 
 func (t *Tun) SentAll() bool {
@@ -278,6 +282,19 @@ func StartTunnels(c *Ctx, plans []*TunPlan) []*Tun {
 						e.Peer.Stream = true
 					}
 				}
+			}
+			idx := t.next
+			if p.Segs != nil {
+				idx = t.seg
+			}
+			if d := p.QuietBefore[idx]; d > 0 && !t.quiet[idx] && c.S.PendingDials() == 0 {
+				if t.quiet == nil {
+					t.quiet = map[int]bool{}
+				}
+				t.quiet[idx] = true
+				c.S.Advance(d)
+				c.S.Count("fault.client.quiet_period")
+				return
 			}
 			if p.Segs != nil {
 				t.sendSeg(c)
